@@ -51,9 +51,9 @@ except Exception:
 
 
 class Impl:
-    def __init__(self, req, host, port, entry='factory'):
+    def __init__(self, req, host, port, entry='factory', falsy_app=False):
         """entry: 'factory' (the SOCKS protocol factory itself), 'socks-endpoint' (TorSocksEndpoint.connect), 'client-endpoint'
-        (TorClientEndpoint.connect with a SOCKS endpoint given), 'function' (txtorcon.socks.resolve / resolve_ptr)"""
+        (TorClientEndpoint.connect with a SOCKS endpoint given), 'socks-endpoint-tls' (tls=True: the request is the same), 'function' (txtorcon.socks.resolve / resolve_ptr)"""
         from twisted.internet.protocol import Protocol, Factory
         from twisted.test import proto_helpers
         from txtorcon.socks import _TorSocksFactory
@@ -79,6 +79,9 @@ class Impl:
 
             def connectionLost(self, reason=None):
                 log.append('applost')
+        if falsy_app:
+            # an application protocol that is also an (empty) container: falsy, and a perfectly good protocol
+            App.__len__ = lambda self2: 0
         self.App = App
         fac = Factory.forProtocol(App) if req == 'CONNECT' else None
         if entry == 'factory':
@@ -88,9 +91,9 @@ class Impl:
             from twisted.internet.testing import MemoryReactorClock
             fake = _FakeProxyEndpoint(self)
             self.proto = None
-            if entry == 'socks-endpoint':
+            if entry in ('socks-endpoint', 'socks-endpoint-tls'):
                 from txtorcon.socks import TorSocksEndpoint
-                self.outer = TorSocksEndpoint(fake, host, port).connect(fac)
+                self.outer = TorSocksEndpoint(fake, host, port, tls=(entry == 'socks-endpoint-tls')).connect(fac)
             elif entry == 'client-endpoint':
                 from txtorcon.endpoints import TorClientEndpoint
                 self.outer = TorClientEndpoint(host, port, socks_endpoint=fake, reactor=MemoryReactorClock()).connect(fac)
